@@ -135,7 +135,19 @@ func runC12(a *A) {
 				continue
 			}
 			if tn == "TypeTime2" {
-				a.hold("C12-R2", key, pos, "prints %d fraction digits (%s)", m, fmts[0])
+				// the stored fraction of an odd precision carries one extra digit; it is dropped (divided by ten) after the
+				// two's-complement borrow for negative values, i.e. as the last step - and never for even precisions
+				arg := ""
+				if len(args) == 1 {
+					arg = args[0]
+				}
+				nDiv := strings.Count(arg, "(/ ")
+				okDiv := nDiv == 0
+				if m%2 == 1 {
+					okDiv = nDiv == 1 && strings.HasPrefix(arg, "(/ ") && strings.HasSuffix(arg, " 10)")
+				}
+				a.check(len(args) == 1 && okDiv, "C12-R2", key, pos, fmt.Sprintf("prints %d fraction digits (%s) of %s", m, fmts[0], arg),
+					fmt.Sprintf("TIME(%d): the fraction printed is %v; the extra digit of an odd precision must be dropped last (after the borrow for negative values), and even precisions print the stored value as it is", m, args))
 				continue
 			}
 			k := (m + 1) / 2
